@@ -120,7 +120,7 @@ impl Calibrations {
 
 /// The deepest nesting of calibrations within calibrations that expansion will follow before it
 /// gives up and reports the instruction at that depth as (presumably endlessly) recursive.
-const MAX_CALIBRATION_EXPANSION_DEPTH: usize = 128;
+const MAX_CALIBRATION_EXPANSION_DEPTH: usize = 64;
 
 struct MatchedCalibration<'a> {
     pub calibration: &'a CalibrationDefinition,
